@@ -98,3 +98,64 @@ package evaluator
 //@     invariant bldRunes(b) == i + 1 && bldOk(b)
 //@     decreases len(s)
 //@     bound len(str(v0))
+
+// ---------------------------------------------------------------------------
+// numbers (C05, C14, C20, C02)
+
+//@ ghost numDec(v Val) Dec = ite(isDec(v), dec(v), ite(isJNum(v), decParse(jnum(v)), ite(isInt(v), decOfInt(intv(v)), ite(isF64(v), decOfF64(f64(v)), decOfF32(f32(v))))))
+//@ ghost numOk(v Val) Bool = isNum(v) && (isJNum(v) ==> decParseOk(jnum(v)))
+//@ ghost truthy(v Val) Bool = !(v == nil || (isBool(v) && !boolv(v)) || (isStr(v) && len(str(v)) == 0) || (isArr(v) && len(arr(v)) == 0) || (isObj(v) && len(obj(v)) == 0) || (isJNum(v) && len(jnum(v)) == 0))
+
+//@ func isNumber
+//@   tags C14 C05
+//@   ensures allkinds: result == isNum(v)
+
+//@ func isTrue
+//@   tags C20 C14
+//@   ensures truthiness: result == truthy(v)
+
+//@ func toDecimal
+//@   tags C05 C14
+//@   ensures ok: result1 == numOk(v)
+//@   ensures value: result1 ==> result0 == numDec(v)
+
+//@ func toFloat
+//@   tags C14
+//@   ensures ok: result1 == (isF64(v) || isF32(v))
+//@   ensures value: (isF64(v) ==> result0 == f64(v)) && (isF32(v) ==> result0 == f64Of32(f32(v)))
+
+//@ func toFloatPair
+//@   tags C14
+//@   ensures ok: result2 == ((isF64(x) || isF32(x)) && (isF64(y) || isF32(y)))
+//@   ensures x: result2 ==> (isF64(x) ==> result0 == f64(x)) && (isF32(x) ==> result0 == f64Of32(f32(x)))
+//@   ensures y: result2 ==> (isF64(y) ==> result1 == f64(y)) && (isF32(y) ==> result1 == f64Of32(f32(y)))
+
+//@ func typeName
+//@   tags C14 C18
+//@   ensures number: isNum(v) ==> result0 == mkStr("number") && result1 == nil
+//@   ensures array: isArr(v) ==> result0 == mkStr("array") && result1 == nil
+//@   ensures object: isObj(v) ==> result0 == mkStr("object") && result1 == nil
+//@   ensures boolean: isBool(v) ==> result0 == mkStr("boolean") && result1 == nil
+//@   ensures string: isStr(v) ==> result0 == mkStr("string") && result1 == nil
+//@   ensures null: v == nil ==> result0 == mkStr("null") && result1 == nil
+//@   ensures other: isOther(v) ==> result0 == nil && isType(result1, "*github.com/woodsbury/jmespath/internal/evaluator.InvalidTypeError")
+
+//@ func toNumber
+//@   tags C14 C05 C02
+//@   ensures passthrough: isNum(v) ==> result == v
+//@   ensures[C05 C02] string: isStr(v) ==> (decUnmarshalOk(str(v)) ==> result == mkDec(decUnmarshal(str(v)))) && (!decUnmarshalOk(str(v)) ==> result == nil)
+//@   ensures other: !isNum(v) && !isStr(v) ==> result == nil
+
+// integer coercion of numeric arguments: ok exactly when the value is an integer that fits in int,
+// whatever Go type carries it (C02, C14); never panics (C03)
+//@ ghost decIntOk(d Dec) Bool = !decIsNaN(d) && decInt64Ok(d) && decIsIntegral(d)
+//@ ghost intOk(v Val) Bool = (isInt(v) ==> inint(intv(v))) && (isDec(v) ==> decIntOk(dec(v))) && (isJNum(v) ==> decIntOk(decParse(jnum(v)))) && (isF64(v) ==> f64IsInt(f64(v)) && f64InIntRange(f64(v), MinInt, MaxInt)) && (isF32(v) ==> f64IsInt(f64Of32(f32(v))) && f32InIntRange(f32(v), MinInt, MaxInt))
+//@ ghost intVal(v Val) Int = ite(isInt(v), intv(v), ite(isDec(v), decInt64(dec(v)), ite(isJNum(v), decInt64(decParse(jnum(v))), ite(isF64(v), f64ToInt(f64(v)), f32ToInt(f32(v))))))
+//@ axiom forall s Str :: {jnumInt64Ok(s)} jnumInt64Ok(s) ==> decParseOk(s) && decIntOk(decParse(s)) && decInt64(decParse(s)) == jnumInt64(s)
+
+//@ func toInt
+//@   tags C02 C14 C03
+//@   ensures isnum.other: !isJNum(v) ==> result1 == isNum(v)
+//@   ensures isnum.jnum: isJNum(v) ==> result1 == decParseOk(jnum(v))
+//@   ensures ok: result2 == (numOk(v) && intOk(v))
+//@   ensures value: result2 ==> result0 == intVal(v)
